@@ -46,6 +46,9 @@ type c14Case struct {
 	Via           string `json:"via"`                                     // client (mail.Client) | direct (smtp.Client.Auth) | retry (same Auth object twice)
 	RetryVariant  string `json:"retry_variant,omitempty"`                 // what differs at the server on the second attempt: same | iter | salt | both | nonce
 	AdvertiseSeed int    `json:"advertise_seed,omitempty"`                // AUTODISCOVER: selects the advertised mechanism subset
+	// DebugLog: "" off | on = debug log switched on (auth data redacted in the log) | on-authdata = also logging auth data;
+	// what is logged has no bearing on what the server receives
+	DebugLog string `json:"debug_log,omitempty"`
 }
 
 type credClass struct {
@@ -166,6 +169,7 @@ func genC14(r *mrand.Rand, i int) c14Case {
 			}
 		}
 	}
+	c.DebugLog = gen.Pick(r, []string{"", "", "on", "on-authdata"})
 	return c
 }
 
@@ -304,6 +308,13 @@ func runC14Case(r *ev.Run, c c14Case, nonces *c14Nonces) {
 		} else {
 			opts = append(opts, mail.WithTLSPolicy(mail.NoTLS))
 		}
+		if c.DebugLog != "" {
+			opts = append(opts, mail.WithDebugLog(), mail.WithLogger(&capLogger{}))
+			if c.DebugLog == "on-authdata" {
+				opts = append(opts, mail.WithLogAuthData())
+			}
+			r.Count("exchanges_with_debug_log", 1)
+		}
 		cl, err := mail.NewClient(netHost, opts...)
 		if err != nil {
 			r.HarnessError("C14 NewClient: " + err.Error())
@@ -353,6 +364,14 @@ func runC14Case(r *ev.Run, c c14Case, nonces *c14Nonces) {
 			if err != nil {
 				errs = append(errs, err)
 				continue
+			}
+			if c.DebugLog != "" {
+				sc.SetLogger(&capLogger{})
+				sc.SetDebugLog(true)
+				if c.DebugLog == "on-authdata" {
+					sc.SetLogAuthData()
+				}
+				r.Count("exchanges_with_debug_log", 1)
 			}
 			err = sc.Auth(auth)
 			errs = append(errs, err)
@@ -452,7 +471,7 @@ func runC14Case(r *ev.Run, c c14Case, nonces *c14Nonces) {
 
 func runC14(r *ev.Run, rep *ev.ReplayDoc) ev.Summary {
 	sum := ev.Summary{
-		Rule: "(mail.Client also dialled three times in a row with Close in between) seeded exchanges: mechanism (PLAIN, LOGIN, CRAM-MD5, XOAUTH2, SCRAM-SHA-1/-256, both -PLUS variants) x user/password classes (ASCII, ',' and '=', blanks, UTF-8, strings with a profile-independent normal form (U+00A0, decomposed accents), long, inadmissible: controls/empty) x right/wrong server secret x salt length 0-64 x iteration count 1-20000 (log-uniform) x server nonce suffixes x CRAM challenges x TLS 1.2 (tls-unique) / TLS 1.3 (tls-exporter) / none, through mail.Client (WithSMTPAuth), smtp.Client.Auth directly and twice with the same Auth object. The reference verifiers (internal/sasl) run at the reference server; the channel binding is computed from the SERVER side of the same TLS connection. distinct by case signature",
+		Rule: "(half of the exchanges with the debug log switched on, with and without auth-data logging; mail.Client also dialled three times in a row with Close in between) seeded exchanges: mechanism (PLAIN, LOGIN, CRAM-MD5, XOAUTH2, SCRAM-SHA-1/-256, both -PLUS variants) x user/password classes (ASCII, ',' and '=', blanks, UTF-8, strings with a profile-independent normal form (U+00A0, decomposed accents), long, inadmissible: controls/empty) x right/wrong server secret x salt length 0-64 x iteration count 1-20000 (log-uniform) x server nonce suffixes x CRAM challenges x TLS 1.2 (tls-unique) / TLS 1.3 (tls-exporter) / none, through mail.Client (WithSMTPAuth), smtp.Client.Auth directly and twice with the same Auth object. The reference verifiers (internal/sasl) run at the reference server; the channel binding is computed from the SERVER side of the same TLS connection. distinct by case signature",
 		Assumptions: []string{
 			"the reference verifiers pass the RFC 5802/7677/2195/4616 vectors (checked by ./check --setup and at the start of every run)",
 			"for strings whose normalised form depends on the profile (SASLprep vs PRECIS) no expectation is made; inadmissible credentials only must not authenticate against a different secret",
